@@ -6,10 +6,12 @@ ThreeRids == {"a", "ax", "b"}
 \* "x": a proper suffix of "ax", "i": an inner part of "ax" - contained in the
 \* root's identifier without being a prefix of it (IdMatch: no match)
 FiveRids == {"a", "ax", "b", "x", "i"}
+NoneRids == {"ax", "a", "none"}
+CONSTANTS RootRid
 \* restricted initial states: no self references unless SelfLoops; the root's id is "ax"
 CONSTANTS SelfLoops, RemoteToo
 MCInit == /\ Init
-          /\ rid[1] = "ax"
+          /\ rid[1] = RootRid
           /\ ~SelfLoops => \A u \in Nodes : edge[u][u] = "none"
           /\ ~RemoteToo => ~remoteRoot
 =============================================================================
